@@ -98,6 +98,13 @@ def probes():
                '(assert (and (c15fn (c15df c15new)) (= c15c c15c)))')
         return ctx['smt_parser'].get_script(StringIO(txt)).get_last_formula()
 
+    def generator_reads_names(env, ctx, f):
+        # the same parser object goes on reading, command by command
+        # (get_command_generator does not start afresh)
+        txt = '(assert (> c15g 0))'
+        cmds = list(ctx['gen_parser'].get_command_generator(StringIO(txt)))
+        return cmds[-1].args[0]
+
     P = {
         'simplify': lambda env, ctx, f: f.simplify(),
         'substitute': sub_ident,
@@ -119,6 +126,7 @@ def probes():
             f.serialize()),
         'normalize': lambda env, ctx, f: env.formula_manager.normalize(f),
         'declare_new_names': declare_new_names,
+        'generator_reads_names': generator_reads_names,
     }
     return P
 
@@ -257,6 +265,16 @@ class Checker(object):
             ])
             return outcome(lambda: ctx['smt_parser'].get_script(
                 StringIO(bad)))
+        if kind == 'smtlib_generator_fails_in_binder':
+            # a command read through get_command_generator fails inside a
+            # let / quantifier / definition that binds a global name
+            bad = rng.choice([
+                '(assert (let ((c15g 5)) (> c15g true)))',
+                '(assert (forall ((c15g Real)) (> c15g true)))',
+                '(define-fun c15h ((c15g Bool)) Int (+ c15g 1))',
+            ])
+            return outcome(lambda: list(
+                ctx['gen_parser'].get_command_generator(StringIO(bad))))
         if kind == 'smtlib_fails_after_declarations':
             # well-formed declarations of new names, then a command that
             # fails
@@ -287,6 +305,7 @@ class Checker(object):
              'hr_syntax_error', 'smtlib_malformed', 'smtlib_type_error',
              'smtlib_undeclared', 'smtlib_malformed_declaration',
              'smtlib_fails_after_declarations',
+             'smtlib_generator_fails_in_binder',
              'in_with_env:ill_typed_construction',
              'in_with_env:bad_constant', 'in_with_env:hr_syntax_error'] + [
         'failpoint:' + p for p in ('simplify', 'substitute', 'free_vars',
@@ -303,7 +322,11 @@ class Checker(object):
             o = outcome(lambda: B.build(b, env))
             if o[0] == 'ok':
                 pool.append(o[1])
-        ctx = {'smt_parser': SmtLibParser(env), 'hr_parser': HRParser(env)}
+        ctx = {'smt_parser': SmtLibParser(env), 'hr_parser': HRParser(env),
+               'gen_parser': SmtLibParser(env)}
+        # (a stream the generator-based probes continue)
+        list(ctx['gen_parser'].get_command_generator(
+            StringIO('(declare-fun c15g () Int)')))
         if pool:
             buf = StringIO()
             with warnings.catch_warnings():
@@ -388,6 +411,8 @@ class Checker(object):
             if kind in ('smtlib_malformed_declaration',
                         'smtlib_fails_after_declarations'):
                 plan.insert(0, ('declare_new_names', 0))
+            if kind == 'smtlib_generator_fails_in_binder':
+                plan.insert(0, ('generator_reads_names', 0))
         self.run_twins(j, rep.shard, target, bps, kind, prefix, plan)
 
     def run_twins(self, j, shard, target, bps, kind, prefix, plan):
